@@ -16,6 +16,7 @@ func checkC13(c *Ctx) {
 	r.Rule("R13.1", "fan-out continues: the loop of LWs.Write over the members has the natural exit only (no return, break, goto or panic in its body); the error edge rejoins the loop; each member gets the whole payload")
 	r.Rule("R13.2", "bounded reaction: every call from the sink (or a helper it calls) back into the logging entry points is dominated by err != nil and by lvl != C, and the only severity such a call can issue is that same C (so the nested record cannot trigger another diagnostic): recursion depth at most 2, at most one diagnostic per failing record, none for a warning")
 	r.Rule("R13.3", "the logging call returns normally on a failed Write: no explicit panic and no single-result assertion on the error value in the sink, the fan-out and the helpers they call")
+	r.Rule("R13.5", "bounded reaction inside the destinations' wrappers: the package's own writer wrappers forward Write once, without a loop or retry")
 	r.Rule("R13.4", "no sticky state: on the failure handling path (sink, fan-out, their in-package helpers) nothing but locals is stored: no field, global, or element of the writer lists is written, so a failing destination is never removed, marked or remembered")
 	r.Assume("a destination reports failure through the error result of Write and keeps no state the package depends on")
 	for _, tags := range c.Configs([]string{""}, []string{"", "verbose"}) {
@@ -30,6 +31,7 @@ func checkC13(c *Ctx) {
 		}
 		c13Fanout(c, p, m)
 		c13Reaction(c, p, m)
+		wrapperForwarding(c, p, "R13.5")
 	}
 	c.Floor["R13.1"] = 2
 	c.Floor["R13.2"] = 1
